@@ -282,7 +282,7 @@ func c10Case(run *evid.Run, i int, j *Journal) {
 		}
 	}
 	run.Eval(1)
-	if i < 2 {
+	if i < 2 || run.NumSamples() < 2 {
 		run.Sample(histSample(h))
 	}
 }
